@@ -232,10 +232,21 @@ def _xnpv(rate, values, dates):
 
 def _xirr(values, dates, guess=None):
     try:
-        return newton(lambda r: _xnpv(r, values, dates), guess, maxiter=100)
+        rate = newton(lambda r: _xnpv(r, values, dates), guess, maxiter=100)
 
     except (RuntimeError, FloatingPointError):
         raise xlerrors.NumExcelError('XIRR did not converge')
+
+    # The secant iteration also stops when it stalls (for example after a
+    # step to -100% or below, where the net present value is infinite) and
+    # then reports its last iterate as the result. Only a rate at which the
+    # net present value vanishes is a result.
+    residual = _xnpv(rate, values, dates)
+    gross = _xnpv(rate, [abs(value) for value in values], dates)
+    if rate <= -1.0 or not abs(residual) <= 1e-6 * gross:
+        raise xlerrors.NumExcelError('XIRR did not converge')
+
+    return rate
 
 
 @xl.register()
